@@ -107,9 +107,11 @@ pub fn gen_coords(ch: &mut Choices) -> Coordinates {
 }
 
 fn gen_bound(ch: &mut Choices) -> Option<Duration> {
-    match ch.weighted(&[66, 6, 8, 8, 8, 4]) {
+    match ch.weighted(&[64, 6, 8, 8, 8, 4, 2]) {
         0 => None,
         1 => Some(Duration::zero()),
+        // nonsensical but representable: a negative bound
+        6 => Some(ch.pick(&[Duration::days(-2), Duration::seconds(-1), Duration::MIN, Duration::days(-400), Duration::hours(-25)])),
         2 => Some(Duration::seconds(ch.int(1, 86400))),
         3 => Some(Duration::days(ch.int(1, 400))),
         4 => Some(Duration::days(ch.int(400, 36600))),
@@ -143,7 +145,7 @@ fn exercise_ctx<L: Localize>(
     window: Duration,
 ) -> Result<(), String>
 where
-    L::DateTime: std::fmt::Debug,
+    L::DateTime: std::fmt::Debug + PartialOrd + Clone,
 {
     for t in instants {
         let w = |op: &str| format!("`{text}` [{ctx_desc}]: {op} at {t}");
@@ -152,7 +154,18 @@ where
         call(mode, tally, &w("is_open/is_closed/is_unknown"), || (oh.is_open(to_dt(*t)), oh.is_closed(to_dt(*t)), oh.is_unknown(to_dt(*t))))?;
         call(mode, tally, &w("next_change"), || oh.next_change(to_dt(*t)))?;
         let to = t.checked_add_signed(window).unwrap_or(NaiveDateTime::MAX);
-        call(mode, tally, &w(&format!("iter_range(.., {to})")), || oh.iter_range(to_dt(*t), to_dt(to)).take(50).count())?;
+        // bounded work also means progress: an iterator that yields the very same non-empty
+        // interval (bounds and kind) twice in a row is stuck, and never ends for the caller who
+        // consumes the range. (Empty intervals are legitimate where a stretch of local time does
+        // not exist — Pacific/Apia skipped 2011-12-30 — and under an interval-size bound every
+        // "too long" interval ends at the end of the window, so bounds alone may repeat.)
+        let progress = call(mode, tally, &w(&format!("iter_range(.., {to})")), || {
+            let starts: Vec<_> = oh.iter_range(to_dt(*t), to_dt(to)).take(50).map(|i| (i.range.start.clone(), i.range.end.clone(), i.kind)).collect();
+            starts.windows(2).position(|p| p[0].0 < p[0].1 && p[1].0 == p[0].0 && p[1].1 == p[0].1 && p[1].2 == p[0].2).map(|k| format!("{:?} then {:?}", starts[k], starts[k + 1]))
+        })?;
+        if let Some(Some(stuck)) = progress {
+            return Err(format!("{}: the iterator does not advance ({stuck}): unbounded work for a caller consuming the range", w(&format!("iter_range(.., {to})"))));
+        }
         call(mode, tally, &w("iter_from"), || oh.iter_from(to_dt(*t)).take(8).count())?;
     }
     Ok(())
@@ -528,13 +541,13 @@ pub fn exercise_text(text: &str, case: &mut Case) -> Result<(), String> {
 
 /// Replay entry: the expression evaluated under the largest representable interval-size bounds.
 fn bound_text(text: &str, case: &mut Case) -> Result<(), String> {
-    case.key = format!("{text} with approx_bound_interval_size(TimeDelta::MAX)");
+    case.key = format!("{text} with approx_bound_interval_size at the ends of TimeDelta (MAX, MIN, negative)");
     let oh = OpeningHours::parse(text).map_err(|e| e.to_string())?;
     let mut tally = Tally { calls: 0, too_far: 0 };
-    for bound in [Duration::MAX, Duration::MAX - Duration::hours(23), Duration::MAX - Duration::days(1)] {
+    for bound in [Duration::MAX, Duration::MAX - Duration::hours(23), Duration::MAX - Duration::days(1), Duration::days(-2), Duration::MIN, Duration::hours(-25)] {
         let oh = oh.clone().with_context(Context::default().approx_bound_interval_size(bound));
         let t = NaiveDate::from_ymd_opt(2020, 1, 1).unwrap().and_hms_opt(12, 0, 0).unwrap();
-        exercise_ctx(Mode::Light, &mut tally, text, &oh, "bound TimeDelta::MAX", &|n| n, &[t], Duration::days(30))?;
+        exercise_ctx(Mode::Light, &mut tally, text, &oh, &format!("bound {bound:?}"), &|n| n, &[t], Duration::days(30))?;
     }
     Ok(())
 }
